@@ -210,7 +210,8 @@ def run(original_args) -> int:
             original_args,
             context.compile_results(codemods_to_run),
         )
-        codetf.write_report(argv.output)
+        if codetf.write_report(argv.output) == 2:
+            return 2
 
     log_report(
         context,
